@@ -122,13 +122,26 @@ func init() {
 		i.ex.addPC(ver)
 		return tuple{sig, iface{}}
 	})
-	// bitcoin.GenerateSeedValue() (Hash32, error): fresh symbolic 32 bytes
+	// bitcoin.GenerateSeedValue() (Hash32, error): fresh symbolic 32 bytes; two seeds are distinct
+	// (it mixes 32 random bytes with the clock: an assumption about the random source, recorded)
 	reg(bp+".GenerateSeedValue", func(fr *frame, args []value) value {
+		ex := fr.i.ex
 		h := make(array, 32)
+		draw := make([]*term, 32)
 		for j := range h {
-			t, _ := fr.i.ex.newInput(fmt.Sprintf("seed[%d]", j), 8)
+			t, _ := ex.newInput(fmt.Sprintf("seed[%d]", j), 8)
+			draw[j] = t
 			h[j] = norm(t, types.Uint8)
 		}
+		for _, prev := range ex.seedDraws {
+			differ := ex.tb.constBool(false)
+			for j := range draw {
+				differ = ex.tb.or(differ, ex.tb.not(ex.tb.eq(draw[j], prev[j])))
+			}
+			ex.addPC(differ)
+			ex.noteAssumption("two generated seed values are distinct")
+		}
+		ex.seedDraws = append(ex.seedDraws, draw)
 		return tuple{h, iface{}}
 	})
 	// bitcoin.NextPublicKey(base PublicKey, hash Hash32) (PublicKey, error)
